@@ -43,15 +43,29 @@ pub fn parse_slot(s: &str) -> Option<SSlot> {
     if s == "none" { Some(None) } else { parse_sp(s).map(Some) }
 }
 
-/// Exact dyadic rational num / 2^shift.
+/// Exact rational num / (2^shift * den), `den` odd (1 for the dyadic values used wherever the
+/// model's exact arithmetic must agree with f64 bit for bit; other values only in the `decimal`
+/// profile, whose debt comparison is tolerant).
 #[derive(Clone, Copy, Debug, PartialEq, Eq, Hash)]
 pub struct Dy {
     pub num: i64,
     pub shift: u32,
+    pub den: u32,
 }
 impl Dy {
     pub fn new(num: i64, shift: u32) -> Dy {
-        let mut d = Dy { num, shift };
+        let mut d = Dy { num, shift, den: 1 };
+        while d.shift > 0 && d.num % 2 == 0 {
+            d.num /= 2;
+            d.shift -= 1;
+        }
+        d
+    }
+    /// num / den for any positive denominator
+    pub fn ratio(num: i64, den: u64) -> Dy {
+        let shift = den.trailing_zeros();
+        let odd = (den >> shift) as u32;
+        let mut d = Dy { num, shift, den: odd.max(1) };
         while d.shift > 0 && d.num % 2 == 0 {
             d.num /= 2;
             d.shift -= 1;
@@ -59,15 +73,18 @@ impl Dy {
         d
     }
     pub fn int(n: i64) -> Dy {
-        Dy { num: n, shift: 0 }
+        Dy { num: n, shift: 0, den: 1 }
+    }
+    pub fn is_dyadic(self) -> bool {
+        self.den == 1
     }
     pub fn to_f64(self) -> f64 {
-        self.num as f64 / (1u64 << self.shift) as f64
+        self.num as f64 / ((1u64 << self.shift) * self.den as u64) as f64
     }
 }
 impl fmt::Display for Dy {
     fn fmt(&self, f: &mut fmt::Formatter<'_>) -> fmt::Result {
-        if self.shift == 0 { write!(f, "{}", self.num) } else { write!(f, "{}/{}", self.num, 1u64 << self.shift) }
+        if self.shift == 0 && self.den == 1 { write!(f, "{}", self.num) } else { write!(f, "{}/{}", self.num, (1u64 << self.shift) * self.den as u64) }
     }
 }
 pub fn parse_dy(s: &str) -> Option<Dy> {
@@ -76,10 +93,10 @@ pub fn parse_dy(s: &str) -> Option<Dy> {
         Some((n, d)) => {
             let n: i64 = n.parse().ok()?;
             let d: u64 = d.parse().ok()?;
-            if !d.is_power_of_two() {
+            if d == 0 {
                 return None;
             }
-            Some(Dy::new(n, d.trailing_zeros()))
+            Some(Dy::ratio(n, d))
         }
     }
 }
